@@ -540,11 +540,14 @@ def oracle_objects(evs, term, case, findings=None):
         ops_ = bodies[fr[0]] if fr[0] < len(bodies) else []
         return ops_[fr[1]] if fr[1] < len(ops_) else None
 
+    aborted = set()       # futures on which abort() was called: their guards are released without a record when they are cancelled
     for idx, e in enumerate(evs):
         if e.kind != "O":
             continue
         t = e.task
         op = attr[idx]
+        if e.tag == 33 and e.vals:
+            aborted.add(e.vals[0])
         if e.tag == 17:
             o = e.vals[0]
             if st[o]["holder"] != t:
@@ -619,7 +622,7 @@ def oracle_objects(evs, term, case, findings=None):
                 if s["holder"] is None:
                     out.append(("C04", "try_lock on m%d reported WouldBlock although no task holds it" % o, None))
             else:
-                if s["holder"] is not None:
+                if s["holder"] is not None and s["holder"] not in aborted:
                     po = pending_op(s["holder"], idx)
                     # a holder inside Condvar::wait has released the mutex for the duration of the wait
                     if not (po and po.startswith("cw") and int(po.split(".")[1]) == o):
@@ -631,9 +634,15 @@ def oracle_objects(evs, term, case, findings=None):
             o = int(op[2:])
             s = st[o]
             w, res = e.vals
+            unsure = (s["writer"] in aborted) or any(x in aborted for x in s["readers"])   # a cancelled future may or may not have released yet
             free_for = (s["writer"] is None and not s["readers"]) if w else (s["writer"] is None)
+            if unsure and res != 2:
+                if s["writer"] in aborted:
+                    s["writer"] = None
+                s["readers"] = [x for x in s["readers"] if x not in aborted]
+                free_for = True
             if res == 2:
-                if free_for:
+                if free_for and not unsure:
                     if (not w) and t in s["readers"]:
                         pass      # re-entrant try_read: failing is permitted ("fail or are diagnosed")
                     else:
